@@ -44,7 +44,10 @@ type fsOp struct {
 }
 
 func genFSScript(r *world.PRNG) []fsOp {
-	names := []string{"a", "b", "c.go", "d", "a/x", "a/y.go", "a/x/z", "b/k", "d/e", "d/e/f.go", "l1", "l2", "a/l3", "missing", "a/missing/q"}
+	long255 := strings.Repeat("n", 255)
+	long256 := strings.Repeat("m", 256)
+	deep := strings.Repeat(strings.Repeat("d", 200)+"/", 21) + "f.go" // longer than PATH_MAX
+	names := []string{"a", "b", "c.go", "d", "a/x", "a/y.go", "a/x/z", "b/k", "d/e", "d/e/f.go", "l1", "l2", "a/l3", "missing", "a/missing/q", long255, long256, "a/" + long255, "a/" + long256, deep}
 	pick := func() string { return names[r.Intn(len(names))] }
 	var ops []fsOp
 	n := r.Range(8, 40)
